@@ -60,6 +60,8 @@ type Runner struct {
 	Blocks  int
 	SaveAll bool
 	Plan    *sim.Plan
+	// Deferred operations run at the end of the block under assembly, before it is sealed.
+	Deferred []func()
 	// AllowPoke enables the "poke" op (C05: balances near 2^64 written directly into the block trie).
 	AllowPoke bool
 }
@@ -219,8 +221,18 @@ func short(b []byte) []byte {
 
 // EndBlock seals the current block.
 func (r *Runner) EndBlock(save bool) {
-	if r.BC == nil {
+	if r.BC == nil && len(r.Deferred) == 0 {
 		return
+	}
+	// operations deferred to the end of the block (an honest generator appends its
+	// built-in transactions, e.g. payFees, after all client transactions)
+	if len(r.Deferred) > 0 {
+		r.EnsureBlock()
+		ds := r.Deferred
+		r.Deferred = nil
+		for _, f := range ds {
+			f()
+		}
 	}
 	b := r.BC.Finish()
 	r.Blocks++
